@@ -51,19 +51,17 @@ Fixpoint with_handler_covering (fuel : nat) (c : code) (t : table) (pos : nat) :
 
 (* predecessors[x] in insertion order: for each reported instruction, first its jump edge,
    then its fall-through edge (to the next reported instruction) *)
-Fixpoint next_insn (l : list nat) (p : nat) : option nat :=
+Fixpoint preds_go (c : code) (x : nat) (l : list nat) : list nat :=
   match l with
-  | a :: ((b :: _) as r) => if a =? p then Some b else next_insn r p
-  | _ => None
+  | [] => []
+  | p :: tl =>
+      (match jump_target (at_ c p) with Some t => if t =? x then [p] else [] | None => [] end)
+      ++ (if no_fallthrough (at_ c p) then []
+          else match tl with q :: _ => if q =? x then [p] else [] | [] => [] end)
+      ++ preds_go c x tl
   end.
 
-Definition preds (c : code) (x : nat) : list nat :=
-  let ins := insns c in
-  flat_map (fun p =>
-    (match jump_target (at_ c p) with Some t => if t =? x then [p] else [] | None => [] end)
-    ++ (if no_fallthrough (at_ c p) then []
-        else match next_insn ins p with Some q => if q =? x then [p] else [] | None => [] end))
-    ins.
+Definition preds (c : code) (x : nat) : list nat := preds_go c x (insns c).
 
 Inductive sres := SFound (h : nat) | SCont (todo seen : list nat).
 
@@ -151,13 +149,13 @@ Definition start_to_handler (t : table) (s : nat) : option nat :=
 
 Definition is_bw (i : instr) : option bool := match i with IBeforeWith a => Some a | _ => None end.
 
-(* `while is_async and insns[idx + skip - 5].opname == "EXTENDED_ARG": skip += 1`
-   (fuel: the instruction list is finite) *)
-Fixpoint skip_ext (fuel : nat) (c : code) (ins : list nat) (idx skip : nat) : nat :=
+(* `while is_async and insns[idx + skip - 5].opname == "EXTENDED_ARG": skip += 1`;
+   [rest] is insns[idx:], so insns[idx + k] = nth_error rest k (fuel: the list is finite) *)
+Fixpoint skip_ext (fuel : nat) (c : code) (rest : list nat) (skip : nat) : nat :=
   match fuel with
   | 0 => skip
-  | S f => match nth_error ins (idx + skip - 5) with
-           | Some p => if is_extarg (at_ c p) then skip_ext f c ins idx (S skip) else skip
+  | S f => match nth_error rest (skip - 5) with
+           | Some p => if is_extarg (at_ c p) then skip_ext f c rest (S skip) else skip
            | None => skip
            end
   end.
@@ -166,48 +164,42 @@ Fixpoint skip_ext (fuel : nat) (c : code) (ins : list nat) (idx skip : nat) : na
    None = the Python code raised (IndexError / KeyError) *)
 Definition winfo := list (nat * (nat * bool)).
 
-Fixpoint with_info_go (c : code) (t : table) (ins : list nat) (idxs : list nat) (acc : winfo)
-  : option winfo :=
-  match idxs with
+Fixpoint with_info_go (c : code) (t : table) (rest : list nat) (acc : winfo) : option winfo :=
+  match rest with
   | [] => Some acc
-  | idx :: r =>
-      match nth_error ins idx with
-      | None => None
-      | Some p =>
-        match is_bw (at_ c p) with
-        | None => with_info_go c t ins r acc
-        | Some asy =>
-            let skip := if asy then skip_ext (length ins) c ins idx 7 else 1 in
-            let step1 :=
-              if asy then
-                match nth_error ins (idx + skip) with
-                | None => None
-                | Some q => Some (S (if instr_eqb_kind (at_ c q) ICleanupThrow then S skip else skip))
-                end
-              else Some skip in
-            match step1 with
+  | p :: tl =>
+      match is_bw (at_ c p) with
+      | None => with_info_go c t tl acc
+      | Some asy =>
+          let skip := if asy then skip_ext (length rest) c rest 7 else 1 in
+          let step1 :=
+            if asy then
+              match nth_error rest skip with
+              | None => None
+              | Some q => Some (S (if instr_eqb_kind (at_ c q) ICleanupThrow then S skip else skip))
+              end
+            else Some skip in
+          match step1 with
+          | None => None
+          | Some skip =>
+            match nth_error rest skip with
             | None => None
-            | Some skip =>
-              match nth_error ins (idx + skip) with
+            | Some q =>
+              let skip := if instr_eqb_kind (at_ c q) INop then S skip else skip in
+              match nth_error rest skip with
               | None => None
               | Some q =>
-                let skip := if instr_eqb_kind (at_ c q) INop then S skip else skip in
-                match nth_error ins (idx + skip) with
-                | None => None
-                | Some q =>
-                    match start_to_handler t q with
-                    | None => None
-                    | Some h => with_info_go c t ins r ((h, (p, asy)) :: acc)
-                    end
-                end
+                  match start_to_handler t q with
+                  | None => None
+                  | Some h => with_info_go c t tl ((h, (p, asy)) :: acc)
+                  end
               end
             end
-        end
+          end
       end
   end.
 
-Definition with_info (c : code) (t : table) : option winfo :=
-  let ins := insns c in with_info_go c t ins (seq 0 (length ins)) [].
+Definition with_info (c : code) (t : table) : option winfo := with_info_go c t (insns c) [].
 
 Fixpoint winfo_get (w : winfo) (h : nat) : option (nat * bool) :=
   match w with
